@@ -234,6 +234,42 @@ def proof_side(ctx, props_module, props_file, extra_names=()):
     return allok, out
 
 
+XLINKS_MODULE = "MorfuseModel.Props.XLinks"
+XLINKS_FILE = os.path.join(LEAN, "MorfuseModel", "Props", "XLinks.lean")
+
+
+def audit_more(ctx, module, props_file, build_out="", what=""):
+    """audit the theorems of a further Props file that several properties share (Props/XLinks.lean: the
+    cross-model agreement between Lang.Value (C03), VMOps (C04) and the kind-code tables).  Call after
+    proof_side: every theorem of the file becomes an obligation of the calling property as well, so an edit
+    to one model that breaks the agreement fails the checks of all properties that stand on it."""
+    names = theorems_in(props_file)
+    if not names:
+        raise CheckError("no theorems found in " + props_file)
+    if not ctx.stats.get("lake_build_ok"):
+        # the build failure itself is recorded by proof_side; say whether this file is where it stopped
+        rel = os.path.relpath(props_file, LEAN)
+        stem = os.path.basename(props_file)[:-5]
+        if rel in build_out or ("MorfuseModel/%s/" % stem) in build_out:
+            ctx.oblige("theorems of %s%s" % (rel, what and " (" + what + ")"), False,
+                       " | ".join(l.strip() for l in build_out.split("\n") if l.startswith("error:") and stem in l)[:1500])
+        return False
+    audit = axiom_audit(ctx, module, names)
+    allok = True
+    for n in names:
+        axs = audit.get(n)
+        if axs is None:
+            ctx.oblige("theorem " + n, False, "not found by #print axioms")
+            allok = False
+            continue
+        bad = [a for a in axs if a not in ALLOWED_AXIOMS]
+        ctx.oblige("theorem " + n, not bad, "axioms: " + ", ".join(axs) if axs else "no axioms")
+        if bad:
+            allok = False
+    ctx.stats["theorems"] = list(ctx.stats.get("theorems", [])) + names
+    return allok
+
+
 def leanchecker(ctx, module):
     with LakeLock():
         p = sh(["lake", "env", "leanchecker", module], cwd=LEAN, timeout=3600)
